@@ -156,7 +156,7 @@ def bspline_interpolation_weights(
             t1 = t.add(4).mul_(offset).mul_(-1 / 12)
             kernel[:, 2] = t0.add(t1)
             kernel[:, 3] = t0.sub(t1)
-            t0 = t.sub(9 / 5).mul_(1.0 / 16.0)
+            t0 = t.sub(9 / 5).mul_(-1.0 / 16.0)
             t1 = b.sub(a).sub_(5).mul_(offset).mul_(1.0 / 24.0)
             kernel[:, 1] = t0.add(t1)
             kernel[:, 4] = t0.sub(t1)
